@@ -1,7 +1,7 @@
 """C03 - a scheduled task receives exactly its effort."""
 import schedcheck
 
-PROPS = ["Props/C01.v", "Props/C06.v"]
+PROPS = ["Props/C03.v", "Props/C01.v", "Props/C06.v"]
 
 
 def run(ctx):
